@@ -5,6 +5,12 @@ import json, os, subprocess
 ROOT = os.path.dirname(os.path.dirname(os.path.abspath(__file__)))
 props = [json.loads(l) for l in open(os.path.join(ROOT, "properties.jsonl"))]
 reg = json.load(open(os.path.join(ROOT, "tools", "registry.json")))
+import glob
+for frag in sorted(glob.glob(os.path.join(ROOT, "tools", "registry.d", "*.json"))):
+    fr = json.load(open(frag))
+    reg["checks"].update(fr.get("checks", {}))
+    reg.setdefault("engines", []).extend(fr.get("engines", []))
+    reg.setdefault("not_applicable", {}).update(fr.get("not_applicable", {}))
 checks = []
 for p in props:
     r = reg["checks"].get(p["id"])
